@@ -6,7 +6,6 @@ from tools.vlib import *
 PID = "C14"
 READY = False
 MANIFEST = {
-    "category": "partial",
     "level_text": "PARTIAL. Lean 4 theorems about a model of SessionManager's framing (send: size guard, nonce, 32-bit big-endian length, "
                   "ChaCha20 call; receive_loop: the three recv_all calls, the length check before the body buffer is allocated, decrypt, "
                   "dispatch), for every 32-byte key, every 12-byte nonce per frame, every list of payloads and every way the TCP byte stream "
